@@ -10,6 +10,7 @@ use crate::{
     codec::*,
     core::{
         base_types::NonZero,
+        error::{CodecError, InvalidPacketHeader},
         properties::ReceiveMaximum,
         utils::{ByteLen, Encode, PacketID, SizedPacket},
     },
@@ -355,6 +356,10 @@ where
                     .retain(|unreleased| *unreleased != packet_id.get());
                 Self::ack::<PubcompReason>(tx, packet_id).await?
             }
+            RxPacket::Connack(_) | RxPacket::Auth(_) => {
+                // Neither is expected once the connection is established: protocol violation by the peer.
+                return Err(CodecError::from(InvalidPacketHeader).into());
+            }
             other => {
                 let action_id = utils::rx_action_id(&other);
 
@@ -521,9 +526,8 @@ where
                 Ok(Left(ConnectRsp::try_from(connack)?))
             }
             RxPacket::Auth(auth) => Ok(Right(AuthRsp::try_from(auth)?)),
-            _ => {
-                unreachable!("Unexpected packet type.");
-            }
+            // Anything else is a protocol violation by the peer, not a bug in this library.
+            _ => Err(CodecError::from(InvalidPacketHeader).into()),
         }
     }
 
@@ -569,9 +573,8 @@ where
                 Ok(Left(ConnectRsp::try_from(connack)?))
             }
             RxPacket::Auth(auth) => Ok(Right(AuthRsp::try_from(auth)?)),
-            _ => {
-                unreachable!("Unexpected packet type.");
-            }
+            // Anything else is a protocol violation by the peer, not a bug in this library.
+            _ => Err(CodecError::from(InvalidPacketHeader).into()),
         }
     }
 
